@@ -70,6 +70,7 @@ const MAX_HANGS: u32 = 2;
 /// a watchdog: "terminates" is part of the property, and a decoder that loops
 /// forever must become a reported failing input rather than a stuck harness.
 pub fn check_bytes(bytes: &[u8], origin: &str, out: &mut Out, hangs: &mut u32) {
+    crate::util::journal(&format!("{} len={} hex={}", origin, bytes.len(), hex(bytes)));
     let (tx, rx) = mpsc::channel();
     let b = bytes.to_vec();
     let o = origin.to_string();
